@@ -10,23 +10,24 @@
    byte-exact generator correspondence and judged on the reference machine. *)
 From Coq Require Import ZArith List String Bool.
 From Gigue Require Import Types Bits Isa Enc GenTables Builder BuilderTies Samplers Generator Machine MachineLemmas
-  SplitProofs FragProofs GenLemmas ImageSem CtorSpec C12Defs C12Proofs.
+  SplitProofs FragProofs GenLemmas ImageSem CtorSpec C12Defs C12Proofs GenWF GenWFProps Witness.
 Import ListNotations.
 Open Scope Z_scope.
 
 
-(* FULL statement (static part): no instruction of a JIT method stores ra to,
-   or reloads it from, the main stack. *)
-Definition gi_ra_on_main_stack (g : gi) : bool :=
-  match g with
-  | GS name _ _ rs1 rs2 _ => (rs1 =? 2) && (rs2 =? 1) && negb (String.eqb name "sst")
-  | GI name _ _ _ rd rs1 _ => (rd =? 1) && (rs1 =? 2) && Enc.mem name b_I_INSTRUCTIONS_LOAD
-  | _ => false
-  end.
-Definition C09_no_ra_on_main_stack_statement : Prop :=
-  forall c script img, successful c script img ->
+(* PROVED for both RIMI variants, every accepted configuration, decision script
+   and emitted image (Layer A): no instruction of any JIT method stores ra
+   through sp or loads ra through sp - by any store / load mnemonic.
+     ra_on_main (GS _ .. rs1 rs2 _) := rs1 = sp /\ rs2 = ra
+     ra_on_main (GI name .. rd rs1 _) := is_any_load name /\ rd = ra /\ rs1 = sp *)
+Theorem C09_no_ra_on_main_stack : forall c script img, successful c script img ->
   (c_variant c = GRimiSS \/ c_variant c = GRimiFull) ->
-  Forall (fun m => Forall (fun g => gi_ra_on_main_stack g = false) (m_instrs m)) (im_methods img).
+  Forall (fun m => Forall (fun g => ra_on_main g = false) (m_instrs m)) (im_methods img).
+Proof. exact rimi_methods_no_ra_on_main. Qed.
+
+Theorem C09_nonvacuous :
+  (exists img, successful wcfg_rimiss wscript_rimiss img) /\ (exists img, successful wcfg_rimifull wscript_rimifull img).
+Proof. exact (conj witness_rimiss witness_rimifull). Qed.
 
 (* prologues / epilogues of both RIMI variants never spill ra to the main
    stack; call-making methods push / pop it through the shadow pointer, which
@@ -64,6 +65,8 @@ Theorem C09_calls_do_not_read_stack_partial : forall v L s A off,
     (forall r, 0 <= r -> r <> 1 -> rget s' r = rget s r).
 Proof. exact method_base_call_reaches. Qed.
 
+Print Assumptions C09_no_ra_on_main_stack.
+Print Assumptions C09_nonvacuous.
 Print Assumptions C09_shadow_discipline_partial.
 Print Assumptions C09_registers_reserved_partial.
 Print Assumptions C09_calls_do_not_read_stack_partial.
